@@ -620,7 +620,7 @@ H_quiescent(r) ==
     IF ~r.drained THEN Res(o, {V("C15", "system does not reach quiescence (stall)", "")})
     ELSE
     LET live == {c \in DOMAIN o.conns : o.conns[c].alive /\ c \in SeqToSet(r.conns)}
-        o1 == [o EXCEPT !.conns = [c \in DOMAIN o.conns |-> [o.conns[c] EXCEPT !.rn = r.rn @@ @]]]
+        o1 == [o EXCEPT !.conns = [c \in DOMAIN o.conns |-> [o.conns[c] EXCEPT !.rn = (IF c \in DOMAIN r.rn THEN r.rn[c] ELSE <<>>) @@ @]]]
     IN Res([o1 EXCEPT !.resetObl = {}],
            UNION {C01Viol(c, r) \cup C07Viol(c) \cup C08Viol(c, r) \cup C03EndViol(c) \cup C06EndViol(c, r) \cup C06TokViol(c, r) : c \in live}
            \cup C09QViol(r) \cup C11Viol(r) \cup C19QViol
